@@ -23,6 +23,7 @@ BYTE_TO_QUOTED = {v: "%" + k.decode().upper() for k, v in HEX_TO_BYTE.items()}
 
 ASCII_RE = re.compile("([\x00-\x7f]+)")
 C1_CONTROL_CHARS_RE = re.compile("[\x80-\x9f]")
+WHITESPACE_RE = re.compile(r"\s", re.UNICODE)
 
 
 # NOTE: only used on ascii strings, where a non-ascii byte can only come from
@@ -98,7 +99,7 @@ def _generate_unquoted_parts(string, only_printable=False, unsafe=None):
 def unquote(string, only_printable=False, unsafe=None, normalize_space=False):
     if "%" not in string:
         if normalize_space:
-            return string.replace(" ", "%20")
+            return WHITESPACE_RE.sub(quote_match, string)
 
         return string
 
@@ -107,7 +108,7 @@ def unquote(string, only_printable=False, unsafe=None, normalize_space=False):
     )
 
     if normalize_space:
-        q = q.replace(" ", "%20")
+        q = WHITESPACE_RE.sub(quote_match, q)
 
     return q
 
